@@ -117,10 +117,15 @@ func checkC18(c *ForeignCase) (o *Outcome, discarded bool) {
 
 var c18Fixtures = []string{"flat24", "nest"}
 
-func TestC18(t *testing.T) {
+func TestC18(t *testing.T) { rapid.Check(t, propC18) }
+
+// FuzzC18: the same property driven by Go's coverage-guided fuzzer (thorough tier).
+func FuzzC18(f *testing.F) { f.Fuzz(rapid.MakeFuzz(propC18)) }
+
+func propC18(t *rapid.T) {
 	cfg := foreignCfg{fixtures: fixturesFromEnv(c18Fixtures), maxRecs: envInt("VERIF_MAXRECS", 50), gen: vt.DefaultGen, plain: true}
 	cfg.gen.NullPct = 20
-	rapid.Check(t, func(t *rapid.T) {
+	{
 		c := &ForeignCase{Fixture: rapid.SampledFrom(cfg.fixtures).Draw(t, "fixture")}
 		f := fx.Get(c.Fixture)
 		cols := f.Root.Columns()
@@ -182,7 +187,7 @@ func TestC18(t *testing.T) {
 		}
 		record("C18", hashOf(c), nt, labels, c.sample)
 		verdict(t, "C18", c, o)
-	})
+	}
 }
 
 func TestReplayC18(t *testing.T) {
